@@ -754,11 +754,20 @@ func runHistory(w *bufio.Writer, dir string, caseID int, header string, lines []
 	}
 	r.imgMode = imgMode
 	defer r.finish()
+	skipImg := false
 	for _, l := range lines {
+		if l == "noimg-next" { // directive: no automatic image after the next commit (huge intermediate states)
+			skipImg = true
+			continue
+		}
 		if !r.execGuarded(l) {
 			break
 		}
 		if imgMode == "commit" && (l == "commit" || strings.HasPrefix(l, "commitfail ") || strings.HasPrefix(l, "open ")) {
+			if skipImg && l == "commit" {
+				skipImg = false
+				continue
+			}
 			r.exec("img")
 		}
 	}
@@ -1099,7 +1108,12 @@ func genHistory(r *rng, cfg genCfg, o openOpts) []string {
 			}
 		}
 		if cfg.reopen && r.chance(1, 10) {
-			L = append(L, "close", "open "+o.String())
+			o2 := o
+			if r.chance(1, 2) {
+				// an explicit page-size option that differs from the file's: the file's own page size must win
+				o2.ps = []int{512, 1024, 4096, 8192, 32768}[r.intn(5)]
+			}
+			L = append(L, "close", "open "+o2.String())
 			readers = map[int]bool{}
 			L = append(L, "beginr 900", "dump r900", "endr 900")
 		}
